@@ -99,6 +99,9 @@ func (h *harnessDb) readsX() string {
 		}
 		if c15PagedOn {
 			h.c15PagedReads(tx, &sb) // QP tokens (c15_paging.go)
+			if c15LookupsOn {
+				h.c15LookupReads(tx, &sb) // LK / LKD / RE tokens: every lookup variant of the store API (store_c15w6.go)
+			}
 		}
 		return nil
 	})
